@@ -69,4 +69,10 @@ def main(argv=None):
 
 
 if __name__ == "__main__":
-    sys.exit(main())
+    rc = main()
+    # Leave without running the interpreter's teardown: CPython 3.12.1 can overflow the C stack while deallocating
+    # the long chains of itertools.tee objects that Vyxal's deep_copy builds (also on the unchanged tree), which
+    # would turn a correct exit status into a segfault.
+    sys.stdout.flush()
+    sys.stderr.flush()
+    os._exit(rc if isinstance(rc, int) else 0)
